@@ -16,12 +16,12 @@ plan('C03',
      jobs=[
          # histories without aliasing operands: must be completely clean
          Job(H, 'hist', 'asan', quick=30000, thorough=800000, shards=(8, 16)),
-         Job(H, 'hist', 'plain', quick=40000, thorough=2000000, shards=(4, 16)),
+         Job(H, 'hist', 'plain', quick=40000, thorough=1500000, shards=(4, 16)),
          # stratum with operands that alias the target (s += s, s += *s+k, s = *s+k, s = s, s << s.substring())
          Job(H, 'hist_self', 'asan', quick=3000, thorough=100000, shards=(4, 16)),
          Job(H, 'hist_self', 'plain', quick=4000, thorough=200000, shards=(2, 8)),
-         Job(H, 'func', 'asan', quick=24000, thorough=1200000, shards=(8, 16)),
-         Job(H, 'func', 'plain', quick=48000, thorough=3000000, shards=(4, 16)),
+         Job(H, 'func', 'asan', quick=24000, thorough=1000000, shards=(8, 16)),
+         Job(H, 'func', 'plain', quick=48000, thorough=2000000, shards=(4, 16)),
          # integers: boundaries + ~1e7 random conversions in quick; all 2^32 int and all 2^32 unsigned values + 1e8 random 64-bit in thorough
          Job(H, 'ints', 'plain', quick=130, thorough=130, shards=(4, 4), params=dict(blk=16384)),
          Job(H, 'ints', 'plain', quick=1, thorough=1601, shards=(1, 16), params=dict(blk=32768, only64=1), tag='c03.ints64', tiers=('thorough',)),
